@@ -50,7 +50,7 @@ def write_overlay():
             rel = os.path.relpath(src, root)
             repl[os.path.join(REPO, rel)] = src
     os.makedirs(BUILD, exist_ok=True)
-    path = os.path.join(BUILD, "overlay.json")
+    path = os.path.join(BUILD, "overlay.json" if REPO == "/repo" else "overlay-%s.json" % hashlib.sha1(REPO.encode()).hexdigest()[:8])
     data = json.dumps({"Replace": repl}, indent=1, sort_keys=True)
     tmp = path + ".%d" % os.getpid()
     with open(tmp, "w") as fh:
